@@ -73,12 +73,12 @@ def main():
             m = re.search(r"test result: (\w+)\. (\d+) passed; (\d+) failed", out)
             ok_tests = bool(m and m.group(1) == "ok" and m.group(3) == "0")
             rec["ran"].append("cargo test --workspace --offline -> %s" % (out.strip().split("\n")[0] if out.strip() else "no output"))
-            rc_mut, out_mut = sh("bash %s %s/target/debug/delta" % (demo, WT), cwd=d, timeout=300)
+            rc_mut, out_mut = sh("setsid -w bash %s %s/target/debug/delta" % (demo, WT), cwd=d, timeout=300)
             rec["ran"].append("demo.sh on the changed binary -> exit %d" % rc_mut)
             sh("git checkout -- .", cwd=WT)
             touch_patched(patch, WT)
             rc, out = sh("cargo build --offline 2>&1 | tail -3", cwd=WT)
-            rc_orig, out_orig = sh("bash %s %s/target/debug/delta" % (demo, WT), cwd=d, timeout=300)
+            rc_orig, out_orig = sh("setsid -w bash %s %s/target/debug/delta" % (demo, WT), cwd=d, timeout=300)
             rec["ran"].append("demo.sh on the unchanged binary -> exit %d" % rc_orig)
             confirmed = ok_tests and rc_mut != 0 and rc_orig == 0
             rec["confirmed"] = confirmed
